@@ -2,7 +2,8 @@
 PROPERTY = "C18"
 LEVEL = "proof"
 CONTRACT_MODULES = ["contracts.specfuns", "contracts.pipeline"]
-FUNCTIONS = ["toasty.pipeline.PipelineManager.publish", "toasty.pipeline.local_io.LocalPipelineIo.put_item"]
+FUNCTIONS = ["toasty.pipeline.PipelineManager.publish", "toasty.pipeline.local_io.LocalPipelineIo.put_item",
+             "toasty.pipeline.cli.refresh_impl"]
 LEMMAS = []
 SLOW = ()
 TRUSTED_BASE = [
@@ -11,5 +12,6 @@ TRUSTED_BASE = [
 ]
 ASSUMPTIONS = ["a crash is a prefix of the event trace: every prefix of a path's trace is covered because the "
                "obligations constrain where in the trace index.wtml and the rename may occur"]
-EXPLANATION = ("The transfer list is proved to end with index.wtml for every listing order and length; the loop body "
+EXPLANATION = ("refresh treats a candidate as already done exactly when ITS index.wtml exists in the store (and fetches it "
+               "unless done or flagged); The transfer list is proved to end with index.wtml for every listing order and length; the loop body "
                "is proved to complete exactly one transfer of that file; the rename is proved to follow the loop.")
